@@ -302,6 +302,7 @@ class World(object):
         self.addr_counter = 0
         self.conn_counter = 0
         self.launch_delays = list(launch_delays)
+        self.connect_delays = []
         self.popen_failures = set(popen_failures)
         self.never_listen = set(never_listen)
         self.counts = {}
@@ -339,6 +340,12 @@ class World(object):
             self.connect_refused += 1
             self.count('connect_refused')
             raise ConnectionRefusedError(111, 'Connection refused')
+        if self.connect_delays:
+            # a connect that takes long although it succeeds (the launch budget of the client only covers refusals)
+            d = self.connect_delays.pop(0)
+            if d:
+                self.count('slow_connect')
+                self.k.sleep(d, ('prim', 'connect.slow'))
         self.conn_counter += 1
         c, s = conn_pair(self, self.conn_counter)
         lst.queue.append(s)
@@ -419,8 +426,20 @@ class World(object):
         World.current = self
         w = self
         import threading
+        import time as _time
         self._saved = (subprocess.Popen, mc.Client, mc.Listener, mc.arbitrary_address,
-                       remote.Thread, remote.Lock, remote.time, sys.argv, threading.Thread, threading.Timer)
+                       remote.Thread, remote.Lock, remote.time, sys.argv, threading.Thread, threading.Timer, _time.sleep)
+        real_sleep = _time.sleep
+
+        def sim_sleep(seconds):
+            # code executed inside a simulated thread (a request that takes long on the server) sleeps on the
+            # virtual clock; anything else keeps the real call
+            if w.k.me() is not None:
+                w.count('simulated_sleep')
+                w.k.sleep(seconds, ('prim', 'time.sleep'))
+            else:
+                real_sleep(seconds)
+        _time.sleep = sim_sleep
 
         def Popen(args, env=None, **kw):
             return w.Popen(args, env=env, **kw)
@@ -458,8 +477,9 @@ class World(object):
         import multiprocessing.connection as mc
         import supp.remote as remote
         import threading
+        import time as _time
         (subprocess.Popen, mc.Client, mc.Listener, mc.arbitrary_address,
-         remote.Thread, remote.Lock, remote.time, sys.argv, threading.Thread, threading.Timer) = self._saved
+         remote.Thread, remote.Lock, remote.time, sys.argv, threading.Thread, threading.Timer, _time.sleep) = self._saved
         World.current = None
 
 
